@@ -41,6 +41,12 @@ type RoundTripper struct {
 }
 
 func (rt *RoundTripper) RoundTrip(req *http.Request) (*http.Response, error) {
+	// the cache key does not cover the request body, and a stored response must not be reused
+	// for a request with another payload anyway (RFC 7234, section 4)
+	if req.Method != http.MethodGet && req.Method != http.MethodHead {
+		return rt.Transport.RoundTrip(req)
+	}
+
 	resp, err := rt.cachedResponse(req)
 	if err == nil {
 		return resp, nil
